@@ -44,6 +44,9 @@ type VarCase struct {
 	Mask     int      `json:"mask"`
 	SiteList []string `json:"sites"`
 	N        string   `json:"n"`
+	// Names: the probed names that are defined at the sites of Mask (N alone, or - literal mode with
+	// the special site - every special variable name at once)
+	Names    []string `json:"names,omitempty"`
 	OS       []KV     `json:"os"`
 	Exp      bool     `json:"exp"`
 	Root     []Entry  `json:"root"`
@@ -56,6 +59,17 @@ type VarCase struct {
 	Observed []string `json:"observed"`
 	ExitCode int      `json:"exit_code"`
 	Stderr   string   `json:"stderr,omitempty"`
+}
+
+// the special variables whose value the model knows (TASK_EXE / TASK_VERSION depend on the binary)
+var specialNames = []string{"TASK", "ALIAS", "TASK_DIR", "ROOT_DIR", "ROOT_TASKFILE", "TASKFILE", "TASKFILE_DIR", "USER_WORKING_DIR"}
+
+// specialValues: what getSpecialVars gives a task named name in the file at include depth depth
+// (ROOT_TASKFILE is SmartJoin(c.Dir, c.Entrypoint): with no -t flag the entrypoint is empty and the value is the root DIRECTORY)
+func specialValues(name string, depth int) []KV {
+	return []KV{{"TASK", name}, {"ALIAS", name}, {"TASK_DIR", dirOf(depth)}, {"ROOT_DIR", "ROOT"},
+		{"ROOT_TASKFILE", "ROOT"}, {"TASKFILE", dirOf(depth) + "/Taskfile.yml"},
+		{"TASKFILE_DIR", dirOf(depth)}, {"USER_WORKING_DIR", "ROOT"}}
 }
 
 func nsOf(depth int) string {
@@ -117,11 +131,20 @@ func GenVarCase(r *rand.Rand, mode string, depth, mask int) *VarCase {
 		c.Levels = 1 // the "other file" has to exist for its sites to be defined
 	}
 	c.N = "VN"
+	c.Names = []string{"VN"}
 	if mask&(1<<SiteSpecial) != 0 {
-		c.N = []string{"TASK", "ALIAS"}[r.Intn(2)]
+		// the probed name IS the name of a special variable: all of them at once when the values are
+		// literals (one run then covers this site subset for every special name), one of them otherwise
+		if mode == "literal" {
+			c.N = "TASK_DIR"
+			c.Names = append([]string{}, specialNames...)
+		} else {
+			c.N = specialNames[r.Intn(len(specialNames))]
+			c.Names = []string{c.N}
+		}
 	}
 	m := "VM"
-	c.Probes = []string{c.N}
+	c.Probes = append([]string{}, c.Names...)
 	if mode != "literal" {
 		c.Probes = append(c.Probes, m)
 		c.Exp = r.Intn(4) == 0
@@ -157,8 +180,17 @@ func GenVarCase(r *rand.Rand, mode string, depth, mask int) *VarCase {
 		}
 		return genEntry(r, mode, siteNames[site], name, other), true
 	}
-	for _, h := range []bool{true, false} { // helper first, so N's templates can see M of the same layer
-		name, other := c.N, m
+	type defName struct {
+		name   string
+		helper bool
+	}
+	defNames := []defName{{m, true}} // helper first, so N's templates can see M of the same layer
+	for _, n := range c.Names {
+		defNames = append(defNames, defName{n, false})
+	}
+	for _, dn := range defNames {
+		h := dn.helper
+		name, other := dn.name, m
 		sAt, fAt := stmtAt, fileAt
 		if h {
 			name, other = m, c.N
@@ -355,8 +387,8 @@ func (c *VarCase) Run() error {
 func (c *VarCase) Coq() string {
 	task := nsOf(c.Depth) + "show"
 	caller := nsOf(c.Depth) + "caller"
-	special := []KV{{"TASK", task}, {"ALIAS", task}}
-	specialCaller := []KV{{"TASK", caller}, {"ALIAS", caller}}
+	special := specialValues(task, c.Depth)
+	specialCaller := specialValues(caller, c.Depth)
 	var levels []string
 	for i, l := range c.Chain {
 		levels = append(levels, fmt.Sprintf("{| lv_stmt := %s; lv_file := %s; lv_dir := %s |}", coqEntries(l.Stmt), coqEntries(l.File), cg.Str(dirOf(i+1))))
